@@ -72,6 +72,9 @@ def groupdict(m, token):
 
 def match_tag(token, regex=match_tag_prefix_and_name):
     m = regex.match(token)
+    if m is None:
+        # e.g. ``</`` that is not followed by a name
+        raise ParseError("Malformed tag.", token)
     d = groupdict(m, token)
 
     end = m.end()
